@@ -160,10 +160,11 @@ Section Hist.
     - intros; assumption.
     - intros m' d ntp H. unfold GH, createFirstSegment in *. cbn [set_stream m_streams].
       apply Forall2_map_r; auto. intros x y Hxy. eapply R_trans; [exact Hxy|apply R_createFirst].
-    - apply GH_rotp.
+    - intros; now apply GH_rotp.
     - apply GH_rots.
     - intros m' i l both H. unfold GH, upd_stream in *. cbn [set_stream m_streams].
       apply Forall2_upd_r; auto. intros x y Hxy. eapply R_trans; [exact Hxy|].
+      unfold copy_targets. destruct (st_leading y); [apply R_refl|].
       apply R_st_with_same; reflexivity.
     - intros m' ti si smp m'' H. unfold part_writeSample.
       destruct (nth_error (m_streams m') si) as [s|]; [|now intros [= <-]].
